@@ -45,7 +45,9 @@ RENDERINGS = ["setup.cfg[bumpver]", "setup.cfg[pycalver]", "pyproject.toml", "bu
               # the same files as they look when saved with Windows line endings
               "setup.cfg[bumpver]+crlf", "bumpver.toml+crlf",
               # the same content laid out differently: blank and comment lines between the patterns of a file entry and between keys
-              "setup.cfg[bumpver]+airy", "setup.cfg[pycalver]+airy", "bumpver.toml+airy"]
+              "setup.cfg[bumpver]+airy", "setup.cfg[pycalver]+airy", "bumpver.toml+airy",
+              # the section among other tools' sections (before and after it); pyproject.toml with the README's top-level [bumpver] table
+              "setup.cfg[bumpver]+neighbours", "bumpver.toml+neighbours", "pyproject.toml+neighbours", "pyproject.toml[top]+neighbours"]
 INI_TRUE = ["yes", "true", "1", "on", "Yes", "TRUE", "On", "True"]
 INI_FALSE = ["no", "false", "0", "off", "No", "FALSE", "Off", "False"]
 
@@ -73,6 +75,21 @@ def render(abstract, rendering):
     if rendering.endswith("+crlf"):
         name, text = render(abstract, rendering[:-5])
         return name, text.replace("\n", "\r\n")
+    if rendering.endswith("+neighbours"):
+        base = rendering[:-11]
+        if base == "pyproject.toml[top]":
+            _n, text = render(abstract, "bumpver.toml")
+            name = "pyproject.toml"
+            text = text.replace('"bumpver.toml" = [', '"pyproject.toml" = [')  # (the explicit entry for the config file itself)
+        else:
+            name, text = render(abstract, base)
+        if name.endswith(".toml"):
+            before = '[build-system]\nrequires = ["setuptools"]\n\n[tool.black]\nline-length = 100\n\n'
+            after = '\n[tool.isort]\nprofile = "black"\n\n[project]\nname = "demo"\n'
+        else:
+            before = "[metadata]\nname = demo\ndescription: colon style\n\n[tool:pytest]\naddopts = -q\n\n"
+            after = "\n[options]\nzip_safe = False\n\n[bumpversion]\ncommit = True\n"
+        return name, before + text + after
     if rendering.endswith("+airy"):
         name, text = render(abstract, rendering[:-5])
         out, prev_indented = [], False
@@ -217,13 +234,13 @@ def space(tier, seed):
 def explore(tier, seed):
     pts = list(space(tier, seed))
     if tier == "quick":
-        # the quick tier walks one fixed third of the product per seed (the thorough tier covers all of it)
+        # the quick tier walks one fixed quarter of the product per seed (the thorough tier covers all of it)
         main = [p for p in pts if p[8] is None]
         rest = [p for p in pts if p[8] is not None]
         # (sliced by a hash of the point: a stride would alias with the product's dimension sizes)
         from ..stats import h64
 
-        pts = [p for p in main if h64(p) % 3 == seed % 3] + rest
+        pts = [p for p in main if h64(p) % 4 == seed % 4] + rest
     chunks = [("cfg", part) for part in pool.split(pts, pool.NPROC * 4)]
     return pool.run_chunks(run_chunk, chunks)
 
